@@ -78,6 +78,11 @@ def sched_parts(pid: str, tier: str):
         mk("whole-run-N3-prio", Cfg(N=3, resources="tm", sym_prio=True, routes="dcp", monitors=mons), base_req, 600)
         mk("whole-run-N3-prio-nested", Cfg(N=3, resources="t", sym_prio=True, sym_seq=False, nested=True, monitors=mons), base_req, 600)
         mk("whole-run-N3-prio-selection", Cfg(N=3, resources="t", sym_prio=True, sym_seq=False, selection=True, debug_leaf=True, monitors=mons), base_req + ["w_debug_in_subgraph"], 600)
+        from harness.graph import GCfg, run_c07
+
+        # the table the scheduler reads equals the property's definition also for DAGs that are not built by @dag
+        parts.append(Part("priority-table-N4-insertion-orders", P(run_c07, GCfg(N=4, relabel=False, debug=False, selection=False, reconf=False, rebuild=True)),
+                          {"N": 4, "insertion orders": 24, "how": "DAG(exec_nodes=...) with permuted node table; compose()"}, 600, 5, ["w_rebuilt"], GRAPH_FUNCS))
         if not q:
             mk("whole-run-N3-prio-all-resources", Cfg(N=3, resources="tma", sym_prio=True, monitors=mons), base_req, 1500)
             mk("whole-run-N4-prio", Cfg(N=4, resources="tm", sym_prio=True, sym_seq=False, monitors=mons), base_req, 1500, 9)
@@ -136,19 +141,21 @@ def graph_parts(pid: str, tier: str):
     parts = []
     if pid == "C07":
         parts.append(Part("table-N4-labelings", P(run_c07, GCfg(N=4, relabel=True, debug=False, selection=False, reconf=False)), {"N": 4, "labelings": 24, "priorities": "unbounded Int"}, 600, 5, ["w_diamond"], GRAPH_FUNCS))
-        parts.append(Part("table-N4-reconf-selection", P(run_c07, GCfg(N=4, relabel=False, debug=False)), {"N": 4, "priorities": "unbounded Int", "selection": "whole/target/exclude/root x node", "reconfiguration": "none, all nodes or one node"}, 600, 5, ["w_diamond", "w_reconfigured", "w_subgraph"], GRAPH_FUNCS))
+        parts.append(Part("table-N4-reconf-selection", P(run_c07, GCfg(N=4, relabel=False, debug=False, rebuild=False)), {"N": 4, "priorities": "unbounded Int", "selection": "whole/target/exclude/root x node", "reconfiguration": "none, all nodes or one node"}, 600, 5, ["w_diamond", "w_reconfigured", "w_subgraph"], GRAPH_FUNCS))
+        parts.append(Part("table-N4-insertion-orders", P(run_c07, GCfg(N=4, relabel=False, debug=False, selection=False, reconf=False, rebuild=True)), {"N": 4, "insertion orders": 24, "how": "DAG(exec_nodes=...) with permuted node table; compose()"}, 600, 5, ["w_rebuilt", "w_diamond"], GRAPH_FUNCS))
         parts.append(Part("table-N3-debug", P(run_c07, GCfg(N=3, relabel=False, debug=True)), {"N": 3, "debug": "one debug leaf, RUN_DEBUG_NODES on/off"}, 600, 5, ["w_debug_in_subgraph"], GRAPH_FUNCS))
         parts.append(Part("order-mc1-N3", P(run_sched, Cfg(N=3, resources="t", sym_prio=True, sym_seq=False, routes="dc", mc_fixed=1, distinct_cp=True, monitors=("C06",))), {"N": 3, "max_concurrency": 1, "assumption": "compound priorities pairwise distinct"}, 600, 6, ["w_returned"], SCHED_FUNCS))
         if not q:
             parts.append(Part("table-N5", P(run_c07, GCfg(N=5, relabel=True, debug=False, selection=False)), {"N": 5, "labelings": 120}, 1500, 6, ["w_diamond"], GRAPH_FUNCS))
     elif pid == "C12":
-        parts.append(Part("closure-N3", P(run_c12, GCfg(N=3)), {"N": 3, "R,X,T": "None, [], singletons, pairs, shared tag, unknown alias (T)", "alias forms": "reference / id / tag, tag clashing with an id"}, 600, 5, ["w_error_case", "w_proper_subgraph", "w_all_three"], GRAPH_FUNCS))
+        parts.append(Part("closure-N3", P(run_c12, GCfg(N=3, indexed=True)), {"N": 3, "R,X,T": "None, [], singletons, pairs, shared tag, unknown alias (T)", "alias forms": "reference / id / tag, tag clashing with an id"}, 600, 5, ["w_error_case", "w_proper_subgraph", "w_all_three"], GRAPH_FUNCS))
         if not q:
-            parts.append(Part("closure-N3-setup", P(run_c12, GCfg(N=3, setup=True)), {"N": 3, "setup": "first node optionally a setup node, optionally already set up"}, 1500, 5, ["w_error_case"], GRAPH_FUNCS))
+            parts.append(Part("closure-N3-setup", P(run_c12, GCfg(N=3, setup=True, indexed=True, combined=True)), {"N": 3, "setup": "first node optionally a setup node, optionally already set up"}, 1500, 5, ["w_error_case"], GRAPH_FUNCS))
     elif pid == "C13":
-        parts.append(Part("debug-N3", P(run_c13, GCfg(N=3, setup=True, activation=True)), {"N": 3, "debug placement": "every subset", "modes": "call, executor(target/exclude/root x node), setup"}, 600, 5, ["w_invalid_rejected", "w_debug_ran", "w_debug_with_selection", "w_debug_pulled_in"], GRAPH_FUNCS))
+        parts.append(Part("debug-N3", P(run_c13, GCfg(N=3, setup=True, activation=True, combined=True)), {"N": 3, "debug placement": "every subset", "modes": "call, executor(target/exclude/root x node), setup"}, 600, 5, ["w_invalid_rejected", "w_debug_ran", "w_debug_with_selection", "w_debug_pulled_in", "w_combined_selection"], GRAPH_FUNCS))
+        parts.append(Part("debug-N4-combined", P(run_c13, GCfg(N=4, setup=False, combined=True)), {"N": 4, "modes": "call, single and combined (root+target, root+exclude) selections"}, 900, 6, ["w_debug_ran", "w_combined_selection"], GRAPH_FUNCS))
         if not q:
-            parts.append(Part("debug-N4", P(run_c13, GCfg(N=4, setup=False)), {"N": 4}, 1500, 6, ["w_debug_ran"], GRAPH_FUNCS))
+            parts.append(Part("debug-N4-activation", P(run_c13, GCfg(N=4, setup=True, activation=True, combined=True)), {"N": 4}, 2400, 7, ["w_debug_ran"], GRAPH_FUNCS))
     return parts
 
 
